@@ -152,7 +152,10 @@ struct TimerInfo {
     deadline_us: u64,
     timed_out: bool,
     cancelled: bool,
+    /// the thunk has been entered (its probe was reached)
     thunk_ran: bool,
+    /// the thunk has got past its scheduling point (its write follows without another one)
+    thunk_passed: bool,
 }
 
 struct AbortBaseline;
@@ -508,6 +511,13 @@ fn probe(site: u32, arg: u64) {
                 s.event(task, &format!("thunk#{}", id));
             });
             sched_point();
+            SIM.with(|s| {
+                let mut s = s.borrow_mut();
+                let idx = task.wrapping_sub(1);
+                if idx < s.timers.len() {
+                    s.timers[idx].thunk_passed = true;
+                }
+            });
         }
         vp::CANCEL_TIMER => {
             SIM.with(|s| {
@@ -530,9 +540,10 @@ fn probe(site: u32, arg: u64) {
                     s.fault("cancel_won");
                     s.event(task, "cancel_ok");
                 } else {
-                    if t.thunk_ran {
+                    if t.thunk_passed {
                         s.fault("cancel_after_fire");
-                    } else if t.timed_out {
+                    } else if t.thunk_ran || t.timed_out {
+                        // the wait has timed out and the thunk is entered but has not written yet
                         s.fault("cancel_lost_thunk_in_flight");
                     } else {
                         s.fault("cancel_lost_before_wait");
